@@ -11,6 +11,7 @@ from liquid2 import TokenStream
 from .builtin import Content
 from .exceptions import LiquidSyntaxError
 from .token import TokenType
+from .token import WhitespaceControl
 from .token import is_comment_token
 from .token import is_content_token
 from .token import is_lines_token
@@ -50,7 +51,13 @@ class Parser:
             token = stream.current()
             if is_content_token(token):
                 nodes.append(content.parse(stream, left_trim=left_trim))
-                left_trim = default_trim
+                # Text is scanned as two tokens around a `{#` that does not start a
+                # comment. There is no markup between them to trim for.
+                left_trim = (
+                    WhitespaceControl.PLUS
+                    if is_content_token(stream.peek())
+                    else default_trim
+                )
             elif is_comment_token(token):
                 left_trim = token.wc[-1]
                 nodes.append(comment.parse(stream))
@@ -103,7 +110,13 @@ class Parser:
             token = stream.current()
             if is_content_token(token):
                 nodes.append(content.parse(stream, left_trim=left_trim))
-                left_trim = default_trim
+                # Text is scanned as two tokens around a `{#` that does not start a
+                # comment. There is no markup between them to trim for.
+                left_trim = (
+                    WhitespaceControl.PLUS
+                    if is_content_token(stream.peek())
+                    else default_trim
+                )
             elif is_comment_token(token):
                 left_trim = token.wc[-1]
                 nodes.append(comment.parse(stream))
